@@ -272,6 +272,10 @@ func (s *Session) Run(ctx context.Context, dir string, args ...string) error {
 							if err != nil {
 								return err
 							}
+							if 0 == len(bss) {
+								// An empty set of bindings is no match.
+								bss = nil
+							}
 							if bss != nil {
 								if 1 < len(bss) {
 									log.Printf("warning: multiple Bindingss")
